@@ -9,6 +9,8 @@ import (
 	"go/constant"
 	"go/token"
 	"go/types"
+	"os"
+	"sort"
 	"strconv"
 	"strings"
 
@@ -41,30 +43,38 @@ type hyp struct {
 }
 
 type Prover struct {
-	c       *Ctx
-	fn      *ssa.Function
-	atoms   []*Atom
-	byKey   map[string]*Atom
-	global  []Poly // facts valid everywhere (type ranges, rule assumptions)
-	divDone map[int]bool
-	budget  int
-	Budget  int // node budget per top-level goal
-	DProve  int // phi-induction depth
-	DElim   int // elimination depth
-	trace   bool
-	loadRep map[ssa.Value]ssa.Value
-	loadsOK bool
-	inPost  bool
-	inNeq   bool
-	where   map[ssa.Instruction]ipos
-	writers []ssa.Instruction
-	f       *fa
-	nodes   int // total search nodes used (reported)
+	c        *Ctx
+	fn       *ssa.Function
+	atoms    []*Atom
+	byKey    map[string]*Atom
+	global   []Poly // facts valid everywhere (type ranges, rule assumptions)
+	divDone  map[int]bool
+	budget   int
+	Budget   int // node budget per top-level goal
+	DProve   int // phi-induction depth
+	DElim    int // elimination depth
+	trace    bool
+	loadRep  map[ssa.Value]ssa.Value
+	loadsOK  bool
+	inPost   bool
+	inNeq    bool
+	inSplit  int
+	splitAt  int
+	hdrFacts map[*ssa.BasicBlock][]Poly // facts about a header's phis: valid where the header dominates
+	inRatio  bool
+	memo     map[string]bool
+	gen      int
+	where    map[ssa.Instruction]ipos
+	writers  []ssa.Instruction
+	f        *fa
+	nodes    int // total search nodes used (reported)
 }
 
 func NewProver(c *Ctx, fn *ssa.Function) *Prover {
-	P := &Prover{c: c, fn: fn, byKey: map[string]*Atom{}, divDone: map[int]bool{}, Budget: 20000, DProve: 6, DElim: 6}
+	P := &Prover{c: c, fn: fn, byKey: map[string]*Atom{}, divDone: map[int]bool{}, memo: map[string]bool{}, hdrFacts: map[*ssa.BasicBlock][]Poly{}, Budget: 20000, DProve: 6, DElim: 6}
 	P.computeLoads()
+	P.lockStep()
+	P.trace = os.Getenv("MAMBA_TRACE") != "" && strings.Contains(fn.String(), os.Getenv("MAMBA_TRACE"))
 	return P
 }
 
@@ -822,12 +832,14 @@ func abs64(x int64) int64 {
 // Prove goal <= 0 at entry of block blk (after its phis).
 func (P *Prover) Prove(goal Poly, blk *ssa.BasicBlock) bool {
 	P.budget = P.Budget
+	P.splitAt = P.DProve
 	return P.prove(goal, blk, nil, nil, P.DProve)
 }
 
 // ProveWith proves goal at blk under additional facts.
 func (P *Prover) ProveWith(goal Poly, blk *ssa.BasicBlock, extra []Poly) bool {
 	P.budget = P.Budget
+	P.splitAt = P.DProve
 	return P.prove(goal, blk, extra, nil, P.DProve)
 }
 
@@ -836,7 +848,8 @@ func (P *Prover) ProveWith(goal Poly, blk *ssa.BasicBlock, extra []Poly) bool {
 func (P *Prover) Unreachable(blk *ssa.BasicBlock, extra []Poly) bool {
 	saved := P.global
 	P.global = append(append([]Poly{}, P.global...), extra...)
-	defer func() { P.global = saved }()
+	P.gen++
+	defer func() { P.global = saved; P.gen++ }()
 	P.budget = P.Budget
 	// a dominating disequality d != 0 is contradicted by proving d == 0 (phi-induction allowed)
 	for _, f := range P.factsAt(blk) {
@@ -857,6 +870,9 @@ func (P *Prover) inconsistent(facts []Poly) bool {
 	lo := map[string]int64{}
 	hi := map[string]int64{}
 	for _, f := range facts {
+		if c, isC := f.isConst(); isC && c > 0 {
+			return true // a fact of the form c <= 0 with c > 0 (an edge condition that is false on this path)
+		}
 		ms := f.monos()
 		if len(ms) != 1 || strings.Contains(ms[0], "*") || ms[0] == "!=" {
 			continue
@@ -883,6 +899,25 @@ func (P *Prover) inconsistent(facts []Poly) bool {
 	return false
 }
 
+// pairInconsistent: one of the edge facts and one other fact add up to a positive constant <= 0
+// (x < B on one edge, x >= B on the other).
+func pairInconsistent(fresh, all []Poly) bool {
+	for _, f := range fresh {
+		if _, isNeq := f["!="]; isNeq {
+			continue
+		}
+		for _, g := range all {
+			if _, isNeq := g["!="]; isNeq || len(g) > len(f)+1 || len(f) > len(g)+1 {
+				continue
+			}
+			if c, isC := f.add(g, 1).isConst(); isC && c > 0 {
+				return true
+			}
+		}
+	}
+	return false
+}
+
 func floorDiv(a, b int64) int64 {
 	q := a / b
 	if (a%b != 0) && ((a < 0) != (b < 0)) {
@@ -899,11 +934,45 @@ func (P *Prover) prove(goal Poly, blk *ssa.BasicBlock, extra []Poly, hyps []hyp,
 	if depth <= 0 {
 		return false
 	}
+	// sub-goals without hypotheses or edge facts recur often (signs of divisors, ranges of bytes)
+	applicable := 0
+	for _, h := range hyps {
+		if h.blk == blk || h.blk.Dominates(blk) {
+			applicable++
+		}
+	}
+	if len(extra) == 0 && applicable == 0 && (len(hyps) == 0 || len(blk.Preds) == 0) && !P.inNeq && P.inSplit == 0 {
+		key := fmt.Sprintf("%s@%d/%d/%d", goal.key(), blk.Index, depth, P.gen)
+		if r, ok := P.memo[key]; ok {
+			return r
+		}
+		res := P.prove1(goal, blk, extra, hyps, depth)
+		if res || P.budget > 0 {
+			P.memo[key] = res
+		}
+		return res
+	}
+	res := P.prove1(goal, blk, extra, hyps, depth)
+	if P.trace {
+		fmt.Printf("%s=> %v  (%s at b%d, %d extra, %d hyps)\n", strings.Repeat(" ", P.DProve-depth), res, P.show(goal), blk.Index, len(extra), len(hyps))
+	}
+	return res
+}
+
+func (P *Prover) prove1(goal Poly, blk *ssa.BasicBlock, extra []Poly, hyps []hyp, depth int) bool {
 	// dominating-edge facts first: building them may create atoms whose type facts must be visible below
 	dom := P.factsAt(blk)
 	facts := append([]Poly{}, P.global...)
 	facts = append(facts, dom...)
 	facts = append(facts, extra...)
+	if P.inRatio {
+		// lock-step relations between loop counters: only the ratio-lemma search needs them
+		for h, fs := range P.hdrFacts {
+			if h == blk || h.Dominates(blk) {
+				facts = append(facts, fs...)
+			}
+		}
+	}
 	for _, h := range hyps {
 		if h.blk == blk || h.blk.Dominates(blk) {
 			facts = append(facts, h.goal)
@@ -930,7 +999,7 @@ func (P *Prover) prove(goal Poly, blk *ssa.BasicBlock, extra []Poly, hyps []hyp,
 		}
 		P.inNeq = false
 	}
-	if P.inconsistent(facts) {
+	if P.inconsistent(facts) || pairInconsistent(extra, facts) {
 		return true // the block (or edge) is infeasible under the known facts: anything holds
 	}
 	facts = P.divFacts(goal, facts, 4, blk, hyps)
@@ -963,12 +1032,13 @@ func (P *Prover) prove(goal Poly, blk *ssa.BasicBlock, extra []Poly, hyps []hyp,
 			}
 		}
 		_ = c
-		return false
+		return P.splitPreds(goal, blk, extra, hyps, depth)
 	}
 	if P.elim(goal, facts, P.DElim) {
 		return true
 	}
-	// eliminate one step, then try phi-induction on the goal and on each residual
+	// eliminate one step, then try phi-induction on the goal and on each residual; a third of the
+	// remaining budget is kept back for the path-sensitive attempts that follow
 	cands := []Poly{goal}
 	for _, m := range goal.monos() {
 		cg := goal[m]
@@ -992,7 +1062,364 @@ func (P *Prover) prove(goal Poly, blk *ssa.BasicBlock, extra []Poly, hyps []hyp,
 			return true
 		}
 	}
+	if depth == P.splitAt && P.inSplit <= 3 && len(blk.Preds) >= 2 && P.budget < P.Budget/2 {
+		P.budget = P.Budget / 2 // the path-sensitive attempt at a goal of the top-level chain has its own allowance
+	}
+	if P.splitPreds(goal, blk, extra, hyps, depth) {
+		return true
+	}
+	if depth == P.DProve && len(hyps) == 0 {
+		return P.ratioLemma(goal, blk, extra, hyps, depth)
+	}
 	return false
+}
+
+// lockStep records, for every pair of integer phis of one loop header that both move by a constant on
+// every back edge, the linear relation between them: with x = phi(x0, x+a) and y = phi(y0, y+b),
+// b*(x - x0) = a*(y - y0) on every visit of the header (both count the trips round the loop).
+func (P *Prover) lockStep() {
+	if P.fn == nil {
+		return
+	}
+	type cphi struct {
+		ph   *ssa.Phi
+		init ssa.Value
+		step int64
+	}
+	for _, h := range P.fn.Blocks {
+		if len(h.Preds) < 2 {
+			continue
+		}
+		var cs []cphi
+		for _, in := range h.Instrs {
+			ph, ok := in.(*ssa.Phi)
+			if !ok {
+				break
+			}
+			if !isInt(ph.Type()) {
+				continue
+			}
+			var init ssa.Value
+			var step int64
+			good, haveStep, backs := true, false, 0
+			for i, pred := range h.Preds {
+				e := ph.Edges[i]
+				if h.Dominates(pred) { // back edge
+					backs++
+					bo, isBo := e.(*ssa.BinOp)
+					if !isBo || bo.X != ssa.Value(ph) || (bo.Op != token.ADD && bo.Op != token.SUB) {
+						good = false
+						break
+					}
+					k, isK := constInt(bo.Y)
+					if !isK {
+						good = false
+						break
+					}
+					if bo.Op == token.SUB {
+						k = -k
+					}
+					if haveStep && k != step {
+						good = false
+						break
+					}
+					step, haveStep = k, true
+				} else {
+					if init != nil && init != e {
+						good = false
+						break
+					}
+					init = e
+				}
+			}
+			if good && backs > 0 && init != nil && haveStep {
+				cs = append(cs, cphi{ph, init, step})
+			}
+		}
+		for i := 0; i < len(cs); i++ {
+			for j := i + 1; j < len(cs); j++ {
+				x, y := cs[i], cs[j]
+				dx := P.poly(x.ph).add(P.poly(x.init), -1)
+				dy := P.poly(y.ph).add(P.poly(y.init), -1)
+				rel := dx.scale(y.step).add(dy.scale(x.step), -1) // b*dx - a*dy == 0
+				P.hdrFacts[h] = append(P.hdrFacts[h], rel, rel.scale(-1))
+			}
+		}
+	}
+}
+
+// proveAnchored proves that goal holds whenever control is at block A, whose only predecessor is the
+// loop header H, by induction over the visits of A: on each edge into H the goal with H's phis
+// replaced by their incoming values must follow from the facts there, the condition of the edge
+// H -> A after the same replacement (the loop is only continued when it holds), and the goal itself
+// for the previous visit of A.
+func (P *Prover) proveAnchored(goal Poly, A *ssa.BasicBlock, hyps []hyp, depth int) bool {
+	if len(A.Preds) != 1 || depth < 2 {
+		return false
+	}
+	H := A.Preds[0]
+	if len(H.Preds) < 2 {
+		return false
+	}
+	var phis []*ssa.Phi
+	for _, in := range H.Instrs {
+		ph, ok := in.(*ssa.Phi)
+		if !ok {
+			break
+		}
+		phis = append(phis, ph)
+	}
+	if !P.availableBefore(goal, H) {
+		return false
+	}
+	cond := P.edgeFacts(H, A)
+	nh := append(append([]hyp{}, hyps...), hyp{A, goal})
+	savedAt := P.splitAt
+	P.splitAt = depth - 1
+	defer func() { P.splitAt = savedAt }()
+	for i, pred := range H.Preds {
+		sub := map[ssa.Value]ssa.Value{}
+		for _, ph := range phis {
+			sub[ph] = ph.Edges[i]
+		}
+		g := P.subst(goal, sub)
+		var ex []Poly
+		for _, f := range cond {
+			if P.availableBefore(f, H) {
+				ex = append(ex, P.subst(f, sub))
+			}
+		}
+		ex = append(ex, P.edgeFacts(pred, H)...)
+		if P.trace {
+			fmt.Printf("%sanchored b%d via b%d: %s\n", strings.Repeat(" ", P.DProve-depth), A.Index, pred.Index, P.show(g))
+		}
+		if !P.prove(g, pred, ex, nh, depth-1) {
+			return false
+		}
+	}
+	return true
+}
+
+// ratioLemma: the goal mentions a phi x of a loop header that advances by exactly one per trip. If a
+// sibling phi y advances by at least K per trip whenever the loop goes round again, then
+// K*(x - x0) <= y - y0 at the top of the body; the lemma is proved by anchored induction for small K
+// and the goal is retried with it.
+func (P *Prover) ratioLemma(goal Poly, blk *ssa.BasicBlock, extra []Poly, hyps []hyp, depth int) bool {
+	if P.inRatio || depth < 3 {
+		return false
+	}
+	P.inRatio = true
+	saved := P.budget
+	defer func() { P.inRatio = false; P.budget = saved }()
+	// candidate ratios: the divisors by which the dominating facts divide (a length guard written as
+	// start + (bits+K-1)/K <= len relates a byte position to a bit position by K)
+	kset := map[int64]bool{}
+	var collect func(q Poly)
+	collect = func(q Poly) {
+		P.atomsOf(q, func(a *Atom) {
+			if a.kind == aDiv && a.c >= 2 && a.c <= 64 {
+				kset[a.c] = true
+			}
+			if a.inner != nil {
+				collect(a.inner)
+			}
+		})
+	}
+	collect(goal)
+	for _, f := range P.factsAt(blk) {
+		collect(f)
+	}
+	var Ks []int64
+	for k := range kset {
+		Ks = append(Ks, k)
+	}
+	sort.Slice(Ks, func(i, j int) bool { return Ks[i] > Ks[j] })
+	if len(Ks) > 3 {
+		Ks = Ks[:3]
+	}
+	if len(Ks) == 0 {
+		return false
+	}
+	pool := P.Budget // one further budget for all lemma attempts together
+	for _, x := range P.phisIn(goal) {
+		H := x.Block()
+		if len(H.Preds) < 2 || !isInt(x.Type()) || !H.Dominates(blk) || H == blk {
+			continue
+		}
+		// unit step on every back edge, one entry value
+		var x0 ssa.Value
+		unit, backs := true, 0
+		for i, pred := range H.Preds {
+			if H.Dominates(pred) {
+				backs++
+				if P.poly(x.Edges[i]).add(P.poly(x), -1).add(constP(-1), 1).key() != "" {
+					unit = false
+				}
+			} else {
+				if x0 != nil && x0 != x.Edges[i] {
+					unit = false
+				}
+				x0 = x.Edges[i]
+			}
+		}
+		if !unit || backs == 0 || x0 == nil {
+			continue
+		}
+		// the body entry: the successor of H that dominates blk and has H as its only predecessor
+		var A *ssa.BasicBlock
+		for _, s := range H.Succs {
+			if len(s.Preds) == 1 && (s == blk || s.Dominates(blk)) {
+				A = s
+			}
+		}
+		if A == nil {
+			continue
+		}
+		for _, in := range H.Instrs {
+			y, ok := in.(*ssa.Phi)
+			if !ok {
+				break
+			}
+			if y == x || !isInt(y.Type()) {
+				continue
+			}
+			var y0 ssa.Value
+			okY := true
+			for i, pred := range H.Preds {
+				if !H.Dominates(pred) {
+					if y0 != nil && y0 != y.Edges[i] {
+						okY = false
+					}
+					y0 = y.Edges[i]
+				}
+			}
+			if !okY || y0 == nil {
+				continue
+			}
+			dx := P.poly(x).add(P.poly(x0), -1)
+			dy := P.poly(y).add(P.poly(y0), -1)
+			for _, K := range Ks {
+				if pool <= 0 {
+					return false
+				}
+				lemma := dx.scale(K).add(dy, -1)
+				P.budget = pool
+				okL := P.proveAnchored(lemma, A, hyps, depth-1)
+				pool = P.budget
+				if P.trace {
+					fmt.Printf("%sratio lemma %s at b%d: %v\n", strings.Repeat(" ", P.DProve-depth), P.show(lemma), A.Index, okL)
+				}
+				if !okL {
+					continue
+				}
+				ok := P.prove(goal, blk, append(append([]Poly{}, extra...), lemma), hyps, depth-1)
+				pool = P.budget
+				if ok {
+					return true
+				}
+				break // a larger K implies the smaller ones
+			}
+		}
+	}
+	return false
+}
+
+// availableBefore: every value the polynomial mentions is a phi of blk or is defined in a block
+// that strictly dominates blk (so it has the same meaning at the end of each predecessor).
+func (P *Prover) availableBefore(p Poly, blk *ssa.BasicBlock) bool {
+	ok := true
+	var walk func(q Poly)
+	check := func(v ssa.Value) {
+		in, isIn := v.(ssa.Instruction)
+		if !isIn || in.Block() == nil {
+			return
+		}
+		if _, isPhi := v.(*ssa.Phi); isPhi && in.Block() == blk {
+			return
+		}
+		if in.Block() == blk || !in.Block().Dominates(blk) {
+			ok = false
+		}
+	}
+	walk = func(q Poly) {
+		P.atomsOf(q, func(a *Atom) {
+			if a.val != nil {
+				check(a.val)
+			}
+			if a.inner != nil {
+				walk(a.inner)
+			}
+		})
+	}
+	walk(p)
+	return ok
+}
+
+// splitPreds proves the goal at a block with several predecessors by proving it at the end of each
+// predecessor, with the phis of the block replaced by the values they receive on that edge - in the
+// goal and in the extra facts alike - and the condition of that edge added. At a plain join this
+// makes the argument path-sensitive; at a loop header it is used only to look one step back under
+// facts that mention the header's phis (for example the condition of the edge leaving the loop),
+// without any induction hypothesis.
+func (P *Prover) splitPreds(goal Poly, blk *ssa.BasicBlock, extra []Poly, hyps []hyp, depth int) bool {
+	if len(blk.Preds) < 2 || depth < 2 || P.inSplit > 3 || depth != P.splitAt {
+		return false
+	}
+	isHeader := false
+	for _, p := range blk.Preds {
+		if blk.Dominates(p) {
+			isHeader = true
+		}
+	}
+	var phis []*ssa.Phi
+	for _, in := range blk.Instrs {
+		ph, ok := in.(*ssa.Phi)
+		if !ok {
+			break
+		}
+		phis = append(phis, ph)
+	}
+	if isHeader {
+		uses := false
+		for _, f := range extra {
+			for _, ph := range P.phisIn(f) {
+				if ph.Block() == blk {
+					uses = true
+				}
+			}
+		}
+		if !uses {
+			return false // plain induction over the header is phiStep's job
+		}
+	}
+	if !P.availableBefore(goal, blk) {
+		return false
+	}
+	P.inSplit++
+	savedAt := P.splitAt
+	P.splitAt = depth - 1
+	defer func() { P.inSplit--; P.splitAt = savedAt }()
+	for i, pred := range blk.Preds {
+		sub := map[ssa.Value]ssa.Value{}
+		for _, ph := range phis {
+			sub[ph] = ph.Edges[i]
+		}
+		g := P.subst(goal, sub)
+		var ex []Poly
+		for _, f := range extra {
+			if P.availableBefore(f, blk) {
+				ex = append(ex, P.subst(f, sub))
+			}
+		}
+		ex = append(ex, P.edgeFacts(pred, blk)...)
+		if P.trace {
+			fmt.Printf("%ssplit b%d <- b%d: %s\n", strings.Repeat(" ", P.DProve-depth), blk.Index, pred.Index, P.show(g))
+		}
+		if !P.prove(g, pred, ex, hyps, depth-1) {
+			return false
+		}
+	}
+	return true
 }
 
 // phiStep: take the innermost block holding a phi of the goal; prove the goal on every incoming edge.
